@@ -44,6 +44,21 @@ pub(crate) struct State<DP: DependencyProvider> {
     unit_propagation_buffer: SmallVec<DP::P>,
 }
 
+/// Verification hook: when a resolution state is dropped (i.e. when `resolve` returns), a read-only
+/// rendering of every incompatibility ever recorded is left in a thread-local for the harness.
+#[cfg(pubgrub_verif)]
+impl<DP: DependencyProvider> Drop for State<DP> {
+    fn drop(&mut self) {
+        let snapshot = self
+            .incompatibility_store
+            .verif_all()
+            .iter()
+            .map(|i| i.verif_render())
+            .collect();
+        crate::verif_store::set(snapshot);
+    }
+}
+
 impl<DP: DependencyProvider> State<DP> {
     /// Initialization of PubGrub state.
     pub(crate) fn init(root_package: DP::P, root_version: DP::V) -> Self {
